@@ -258,10 +258,59 @@ static int child(int w, int row, int persistent, long k, long base) {
   printf("K %ld fired %ld nulls %ld api %ld fails %d\n", k, fired, n_null, n_api, nfail); fflush(stdout);
   return nfail ? 3 : 0;
 }
+// prange <seed> <n>: the real mi_arena_purge_range on a 64-block arena (field 0) with random start / length / purge mask; the ranges it
+// hands to the OS (one purge request per mi_arena_purge) are printed for the comparison with the regenerated function (Gen/PurgeRange.lean)
+static void prange_mode(int n) {
+  mi_option_set(mi_option_purge_decommits, 0); mi_option_set(mi_option_purge_delay, 0); mi_option_set(mi_option_arena_purge_mult, 1);
+  void* warm = mi_malloc(8); mi_free(warm);
+  const size_t NB = 64; size_t asize = NB * MI_ARENA_BLOCK_SIZE;
+  uint8_t* raw = (uint8_t*)mmap(NULL, asize + MI_SEGMENT_ALIGN, PROT_READ | PROT_WRITE, MAP_PRIVATE | MAP_ANONYMOUS | MAP_NORESERVE, -1, 0);
+  if (raw == MAP_FAILED) { printf("SKIP cannot reserve\n"); return; }
+  uint8_t* start = (uint8_t*)_mi_align_up((uintptr_t)raw, MI_SEGMENT_ALIGN);
+  mi_arena_id_t aid;
+  if (!mi_manage_os_memory_ex(start, asize, true /*committed*/, false, true, -1, true /*exclusive*/, &aid)) { printf("SKIP manage failed\n"); return; }
+  mi_arena_t* a = mi_arena_from_index(mi_arena_id_index(aid));
+  if (a->block_count != NB || a->field_count != 1) { printf("SKIP arena shape (%zu blocks, %zu fields)\n", a->block_count, a->field_count); return; }
+  for (int it = 0; it < n; it++) {
+    size_t startidx = (size_t)(rnd() % 64), bitlen = 1 + (size_t)(rnd() % (64 - startidx));
+    uint64_t purge;
+    switch (rnd() % 6) {
+      case 0: purge = rnd(); break;
+      case 1: purge = rnd() | rnd() | rnd(); break;                                  // dense
+      case 2: purge = rnd() & rnd() & rnd(); break;                                  // sparse
+      case 3: purge = ~(uint64_t)0; break;
+      case 4: purge = (bitlen >= 64 ? ~(uint64_t)0 : ((((uint64_t)1 << bitlen) - 1) << startidx)); break;   // exactly the range
+      default: { purge = 0; int runs = 1 + (int)(rnd() % 4); for (int r = 0; r < runs; r++) { unsigned b = (unsigned)(rnd() % 64), l = 1 + (unsigned)(rnd() % 16); for (unsigned j = b; j < b + l && j < 64; j++) purge |= (uint64_t)1 << j; } }
+    }
+    long e0 = vm_nev;
+    bool all = mi_arena_purge_range(a, 0, startidx, bitlen, (size_t)purge);
+    printf("PR %zu %zu %llu -> %d", startidx, bitlen, (unsigned long long)purge, (int)all);
+    uintptr_t la = 0; size_t ls = 0; size_t rb[130], rc_[130]; int nr = 0, outside = 0;
+    for (long e = e0; e < vm_nev; e++) {
+      if (vm_ev[e].kind != VM_MADVISE && vm_ev[e].kind != VM_MPROTECT && vm_ev[e].kind != VM_MMAP) continue;
+      if (vm_ev[e].addr == la && vm_ev[e].size == ls) continue;       // a second system call for the same purge request
+      la = vm_ev[e].addr; ls = vm_ev[e].size;
+      if (la < (uintptr_t)a->start || la + ls > (uintptr_t)a->start + asize || (la - (uintptr_t)a->start) % MI_ARENA_BLOCK_SIZE != 0 || ls % MI_ARENA_BLOCK_SIZE != 0) { outside++; continue; }
+      if (nr < 130) { rb[nr] = (la - (uintptr_t)a->start) / MI_ARENA_BLOCK_SIZE; rc_[nr] = ls / MI_ARENA_BLOCK_SIZE; printf(" %zu %zu", rb[nr], rc_[nr]); nr++; }
+    }
+    printf("\n");
+    if (outside) FAIL("purge_range_outside_arena", "purge_range(%zu,%zu,%llx): %d requests outside the arena or not block-aligned", startidx, bitlen, (unsigned long long)purge, outside);
+    for (int r = 0; r < nr; r++) {
+      size_t b = rb[r], c = rc_[r];
+      if (b < startidx || b + c > startidx + bitlen) FAIL("purge_outside_claimed_range", "purge_range(%zu,%zu,%llx) purged blocks %zu+%zu", startidx, bitlen, (unsigned long long)purge, b, c);
+      for (size_t j = b; j < b + c && j < 64; j++) if (!((purge >> j) & 1)) { FAIL("purge_of_unscheduled_block", "purge_range(%zu,%zu,%llx) purged block %zu", startidx, bitlen, (unsigned long long)purge, j); break; }
+    }
+  }
+}
+
 int main(int argc, char** argv) {
   if (argc < 3) { fprintf(stderr, "usage: c07 seg|arena|count|enum ...\n"); return 2; }
   setvbuf(stdout, NULL, _IOLBF, 0);
   mi_option_set(mi_option_show_errors, 0); mi_option_set(mi_option_verbose, 0);
+  if (strcmp(argv[1], "prange") == 0) {
+    uint64_t seed = strtoull(argv[2], 0, 10); rs ^= seed * 0x9E3779B97F4A7C15ULL; if (!rs) rs = 1; for (int i = 0; i < 8; i++) rnd();
+    prange_mode(argc > 3 ? atoi(argv[3]) : 500); printf("DONE fails %d\n", nfail); return 0;
+  }
   if (strcmp(argv[1], "seg") == 0 || strcmp(argv[1], "arena") == 0) {
     uint64_t seed = strtoull(argv[2], 0, 10); rs ^= seed * 0x9E3779B97F4A7C15ULL; if (!rs) rs = 1; for (int i = 0; i < 8; i++) rnd();
     if (argv[1][0] == 's') seg_mode(argc > 3 ? atoi(argv[3]) : 300); else arena_mode(argc > 3 ? atoi(argv[3]) : 300, argc > 4 ? atol(argv[4]) : 0);
